@@ -421,3 +421,21 @@ fn q_zst_header_with_destructor() {
     drop(b);
     assert!(unsafe { ZD_DROPS == 2 } && n_live() == 0);
 }
+
+// an owning, exact-size iterator as the source: every element moves in once and the iterator's own storage is released
+#[kani::proof]
+#[kani::unwind(6)]
+#[kani::stub(std::alloc::alloc, alloc_stub)]
+#[kani::stub(alloc::alloc::dealloc_nonnull, dealloc_stub)]
+fn q_iter_owning_source() {
+    crate::ghost::arm();
+    let x: u8 = kani::any();
+    let mut v = Vec::with_capacity(2);
+    v.push(Dt::new(1, x));
+    v.push(Dt::new(2, x));
+    let a = Arc::from_header_and_iter(Dt::new(0, x), v.into_iter());
+    assert!(ledger_zero() && a.slice.len() == 2 && a.slice[1].id == 2 && a.slice[0].v == x);
+    assert!(n_live() == 1, "the consumed iterator's own storage was not released");
+    drop(a);
+    finish(3);
+}
